@@ -1,10 +1,12 @@
 import PegVerif.Proofs.LinkLemmas
+import PegVerif.Proofs.LinkSwitch
 /-
   C08 — every accepted grammar yields valid Go.  The proof carries the generator's *hygiene logic*
   (Go's type checker, `go/parser` and `go/printer` are oracles in the tie, they are not modelled):
   labels are defined at most once and lie in the range the rule allocated, so no `goto` can be
-  ambiguous; the dry pass and the real pass number labels identically and (without `-switch`) print
-  the same jumps, so every printed label is used and every jump target is printed.
+  ambiguous; the dry pass and the real pass number labels identically and print the same jumps
+  (with `-switch` nodes too, since the dry pass sets the parentDetect flags like the real pass —
+  fix 'label defined and not used'), so every printed label is used and every jump target is printed.
 -/
 namespace PegVerif
 
@@ -28,8 +30,25 @@ theorem C08_dry_real_same_jumps (env env' : CEnv) (ha : env.always = env'.always
     jumps (compile env e ko pd pmk st).code = jumps (compile env' e ko pd pmk st).code :=
   compile_jumps_indep env env' ha e ko pd pmk st h
 
+/-- With `-switch` nodes as well (any expression): a label is jumped to in the real pass exactly
+    when it is in the dry pass, so `printLabel` prints exactly the labels that are used.  (Before
+    the fix of F-C08-2 the dry pass compiled case bodies without the parentDetect flags and only
+    the inclusion real ⊆ dry held: "label lN defined and not used".) -/
+theorem C08_dry_real_same_jumps_switch (env env' : CEnv) (ha : env.always = env'.always) (e : Expr)
+    (ko : Nat) (pd pmk : Bool) (st : CSt) (l : Nat) :
+    l ∈ jumps (compile env e ko pd pmk st).code ↔ l ∈ jumps (compile env' e ko pd pmk st).code :=
+  ⟨fun h => compile_jumps_sub env env' ha e ko pd pmk st h,
+   fun h => compile_jumps_sub env' env ha.symm e ko pd pmk st h⟩
+
+/-- Switch labels (`case` entry points and the end of the `switch`) are unique per function. -/
+theorem C08_switch_labels_unique (env : CEnv) (r : Rule) (b : Expr) (ko : Nat) (st : CSt) :
+    SUniq (ruleFunc env r b ko st).1 :=
+  ruleFunc_suniq env r b ko st
+
 end PegVerif
 
+#print axioms PegVerif.C08_dry_real_same_jumps_switch
+#print axioms PegVerif.C08_switch_labels_unique
 #print axioms PegVerif.C08_labels_unique
 #print axioms PegVerif.C08_dry_real_same_numbering
 #print axioms PegVerif.C08_dry_real_same_jumps
